@@ -5,6 +5,8 @@ hundreds of meshes and refinements; its assertions are weak, the specification's
 Recorded (bounded in size, de-duplicated):
   * every mesh on which `refined()` is called: the abstract mesh before / after  (-> C12 / C13 clauses)
   * every small mesh whose facets table is built: the connectivity tables          (-> C11 clauses)
+  * every DOF numbering built on a small mesh: the DOF tables                        (-> C04 clauses)
+  * every boundary-condition split of a small system: sparsity structure + index sets (-> C05, re-driven exactly)
 Environment: SUITE_OUT = output path, SUITE_MAX_CELLS (default 64), SKFEM_VERIF=1 must be set (guard).
 """
 import hashlib
@@ -17,7 +19,7 @@ import numpy as np
 OUT = os.environ.get('SUITE_OUT')
 MAXC = int(os.environ.get('SUITE_MAX_CELLS', '64'))
 ENABLED = bool(OUT) and os.environ.get('SKFEM_VERIF') == '1'
-_events = {'refine': [], 'conn': []}
+_events = {'refine': [], 'conn': [], 'dofs': [], 'bc': []}
 _seen = set()
 _depth = [0]
 
@@ -119,6 +121,66 @@ def pytest_configure(config):
             pass
 
     MeshHex1._init_facets = _init_facets_hex
+
+
+    # every DOF numbering built by the tests on a small mesh (-> C04 clauses)
+    from skfem.assembly.dofs import Dofs
+    from harness.dofs_common import number_event
+    orig_dofs_init = Dofs.__init__
+
+    def dofs_init(self, topo, element, offset=0):
+        orig_dofs_init(self, topo, element, offset)
+        try:
+            if _depth[0] == 0 and offset == 0 and type(topo).__name__ in KIND and 'DG' not in type(topo).__name__ \
+                    and topo.t.shape[1] <= MAXC // 2 and len(_events['dofs']) < 400:
+                k = (_key(topo.t), type(element).__name__, repr(getattr(element, 'dofnames', '')))
+                if ('d',) + k not in _seen:
+                    _seen.add(('d',) + k)
+                    _depth[0] += 1
+                    try:
+                        ev = number_event(topo, element, self)
+                    finally:
+                        _depth[0] -= 1
+                    ev['test'] = os.environ.get('PYTEST_CURRENT_TEST', '')[:120]
+                    ev['elem'] = type(element).__name__
+                    _events['dofs'].append(ev)
+        except Exception:
+            pass
+
+    Dofs.__init__ = dofs_init
+
+
+    # every boundary-condition split the tests ask for on a small system: sparsity structure and index sets only
+    # (-> C05: re-driven with integer entries on the recorded structure, harness/props/c05.py)
+    import scipy.sparse as sp
+    import skfem.utils as su
+    orig_init_bc = su._init_bc
+
+    def _init_bc(A, b=None, x=None, I=None, D=None):
+        out = orig_init_bc(A, b, x, I, D)
+        try:
+            n = A.shape[0]
+            if n <= int(os.environ.get("SUITE_MAX_BC", "90")) and A.shape[0] == A.shape[1] and len(_events['bc']) < 200:
+                C = sp.csr_matrix(A)
+                bo, xo, Io, Do = out
+                hasb = 0 if b is None else (2 if sp.issparse(b) else 1)
+                k = _key(C.indptr, C.indices, np.asarray(Io), np.asarray(Do), np.array([hasb, int(x is not None)]))
+                if ('b', k) not in _seen:
+                    _seen.add(('b', k))
+                    ev = {'n': int(n), 'ptr': [int(v) for v in C.indptr], 'idx': [int(v) for v in C.indices],
+                          'I': [int(v) for v in np.asarray(Io).ravel()], 'D': [int(v) for v in np.asarray(Do).ravel()],
+                          'given': 'I' if I is not None else 'D', 'hasb': hasb, 'hasx': int(x is not None),
+                          'test': os.environ.get('PYTEST_CURRENT_TEST', '')[:120]}
+                    if hasb == 2:
+                        B = sp.csr_matrix(b)
+                        ev['Bptr'] = [int(v) for v in B.indptr]
+                        ev['Bidx'] = [int(v) for v in B.indices]
+                    _events['bc'].append(ev)
+        except Exception:
+            pass
+        return out
+
+    su._init_bc = _init_bc
 
 
 def pytest_sessionfinish(session, exitstatus):
